@@ -19,7 +19,8 @@ class Gen5(P.Gen):
 
     def __init__(self, rng, **kw):
         super().__init__(rng, **kw)
-        self.w.update({"dupselect": 0.8, "joinpick": 1.2})
+        self.w.update({"dupselect": 0.8, "joinpick": 1.2, "exclude": 1.6, "knownjoin": 1.5, "joinsplitpick": 1.5})
+        P.nid("zz")
 
     def t_dupselect(self, st):
         cols = [c for c in st["cols"] if c[0] is None and not c[1].startswith("?")]
@@ -30,6 +31,7 @@ class Gen5(P.Gen):
         items = [c, c] + [k[1] for k in keep]
         # same name twice: the later column shadows (un-names) the earlier one; both stay in the frame
         st["cols"] = [(None, "?%d" % len(st["steps"])), (None, c)] + [(None, k[1]) for k in keep]
+        st["stop"] = True
         return P.Step("dupselect", "select {%s}" % ", ".join(items), "TSelect [%s]" % "; ".join("(None, ECol None %d%%N)" % P.nid(x) for x in items))
 
     def t_joinpick(self, st):
@@ -54,7 +56,60 @@ class Gen5(P.Gen):
             newcols.append((None, ("?%d_%d" % (len(st["steps"]), i)) if later else n))
         st["cols"] = newcols
         st["order"] = None
+        st["stop"] = True        # terminal: what follows would only compound the known defects of this shape
         return P.Step("joinpick", "select {%s}" % ", ".join(items), "TSelect [%s]" % "; ".join("(None, ECol (Some %d%%N) %d%%N)" % (P.nid(q), P.nid(n)) for q, n in picks))
+
+
+    def t_exclude(self, st):
+        """select !{...}: all columns but the listed ones"""
+        r = self.r
+        named = [c for c in st["cols"] if not c[1].startswith("?")]
+        if len(named) < 2:
+            return None
+        n = 1 if r.random() < 0.6 else 2
+        ex = r.sample(named, min(n, len(named) - 1))
+        if st["order"] is not None:
+            st["uniq_dropped"] = True
+        st["cols"] = [c for c in st["cols"] if c not in ex]
+        items = ["%s%s" % ((q + ".") if q else "", c) for q, c in ex]
+        citems = ["(%s, %d%%N)" % (P.coq_opt(q), P.nid(c)) for q, c in ex]
+        return P.Step("exclude", "select !{%s}" % ", ".join(items), "TExclude [%s]" % "; ".join(citems))
+
+    def t_knownjoin(self, st):
+        """both join sides have fully known columns (explicit select on each) and share column names"""
+        r = self.r
+        if st["joined"] or st["cols"] != [(None, c) for c in P.TABLES["t"]] or any(x.kind not in ("sort", "filter", "take") for x in st["steps"]):
+            return None
+        side = r.choice(["Inner", "LeftJ"])
+        on = ("bin", "Eq", ("col", "t", "g"), ("col", "u", "g"))
+        sel = P.Step("select", "select {%s}" % ", ".join(P.TABLES["t"]), "TExclude [(None, %d%%N)]" % P.nid("zz"), known=True)
+        st["steps"].append(sel)
+        ucols = P.TABLES["u"]
+        usel = "(Rel.apply (TSelect [%s]) U_TABLE)" % "; ".join("(None, ECol None %d%%N)" % P.nid(c) for c in ucols)
+        st["cols"] = [("t", c) for c in P.TABLES["t"]] + [("u", c) for c in ucols]
+        st["joined"] = True
+        st["uniq"] = None
+        st["order"] = None
+        return P.Step("knownjoin", "join %su=(from u | select {%s}) (%s)" % ("side:left " if side == "LeftJ" else "", ", ".join(ucols), P.prql_expr(on)),
+                      "TJoin %s %d%%N %s %s %s" % (side, P.nid("u"), P.coq_names(ucols), usel, P.coq_expr(on)), side=side)
+
+
+    def t_joinsplitpick(self, st):
+        """after a join: force a sub-query split (derive then filter), then select same-named columns of both sides"""
+        if not st["joined"] or not any(c[0] == "u" for c in st["cols"]) or not any(c[0] == "t" for c in st["cols"]):
+            return None
+        r = self.r
+        tn = [c for c in st["cols"] if c[0] == "t" and c[1] in ("a", "id", "g", "b", "c")]
+        un = [c for c in st["cols"] if c[0] == "u" and c[1] in ("a", "id", "g", "d")]
+        if not tn or not un:
+            return None
+        nm = self.newname()
+        e = ("bin", "Add", ("col",) + r.choice(tn), ("col",) + r.choice(un))
+        st["steps"].append(P.Step("derive", "derive {%s = %s}" % (nm, P.prql_expr(e)), "TDerive [(Some %d%%N, %s)]" % (P.nid(nm), P.coq_expr(e))))
+        f = ("bin", "Or", ("bin", "Ne", ("col", None, nm), ("lit", 99)), ("isnull", ("col", None, nm), False))
+        st["steps"].append(P.Step("filter", "filter %s" % P.prql_expr(f), "TFilter %s" % P.coq_expr(f)))
+        st["cols"] = st["cols"] + [(None, nm)]
+        return self.t_joinpick(st)
 
 
 def classify(rec):
@@ -66,11 +121,22 @@ def classify(rec):
     cols = rec.get("sqlite_cols") or []
     if any(re.fullmatch(r"_expr_\d+", c) for c in cols) and re.search(r"SELECT \*(?!,| EXCLUDE)", sql) and rec["target"] in ("sql.sqlite", "sql.generic"):
         return "F23-helper-column-exposed"
+    if "exclude" in kinds and rec["target"] in ("sql.sqlite", "sql.generic") and re.search(r"(SELECT|,) (\w+\.)?\*", sql) \
+            and len(cols) > len(rec.get("model_names") or []):
+        return "F23-helper-column-exposed"      # same root: a star cannot exclude on this dialect, here a user-excluded column leaks
     if rec["verdict"] == "sql-err" and re.search(r"no such column: _expr_\d+", str(rec.get("sqlite"))) and "join" in kinds and re.search(r"SELECT \w+\.\*, u\.\*", sql):
         return "F24-dangling-renamed-duplicate"
+    if ("joinpick" in kinds or "knownjoin" in kinds or "join" in kinds) and any(re.fullmatch(r"_expr_\d+", c) for c in cols) and re.search(r" AS _expr_\d+", sql):
+        return "F34-renamed-duplicate-name-leaks"
     cols_n, frame_n = len(rec.get("sqlite_cols") or []), len(rec.get("model_names") or [])
-    if ("dupselect" in kinds or "joinpick" in kinds) and rec["verdict"] in ("names", "rows") and cols_n < frame_n:
-        return "F13-duplicate-select-merged"
+    if rec["verdict"] in ("names", "rows") and cols_n < frame_n:
+        last_select = sql[sql.rfind("SELECT "):]
+        sel_list = last_select[:last_select.find(" FROM ")] if " FROM " in last_select else last_select
+        # deduplicate_select_items only drops qualified identifiers (`x.col`) whose parts were all seen before
+        if ("joinpick" in kinds or "knownjoin" in kinds) and len(re.findall(r"\b\w+\.\"?\w+\"?", sel_list)) >= 2:
+            return "F13-duplicate-select-merged"
+        if "dupselect" in kinds and not ("joinpick" in kinds or "knownjoin" in kinds):
+            return "F13-duplicate-select-merged"
     if ("group_take" in kinds or "group_win" in kinds) and not rec["program"].meta.get("final_select", True) and re.search(r"SELECT \*", sql):
         return "F26-group-keys-first-vs-star"
     return None
@@ -87,6 +153,8 @@ def judge_cols(rec):
             return None
         # SQLite renames duplicate column names coming out of a sub-query (`id`, `id:1`): an engine artefact
         cols = [re.sub(r":\d+$", "", c) for c in cols]
+        rn = rec["program"].meta.get("rename") or {}
+        mn = [rn.get(w, w) if w is not None else None for w in mn]
         if not rec.get("model_rows") and not rec["program"].meta.get("final_select", True):
             return None            # empty result of a wildcard program: the frame is not observable from the model
         if len(cols) != len(mn):
@@ -94,7 +162,10 @@ def judge_cols(rec):
         bad = [(i, w, g) for i, (w, g) in enumerate(zip(mn, cols)) if w is not None and not str(w).startswith("?") and w != g]
         if bad:
             return "column names/order differ from the final frame: %s vs %s" % (cols, mn)
-        return None                # same columns: a value difference is C01's clause
+        if v == "rows" and any(s.kind in ("joinpick", "knownjoin") for s in rec["program"].steps) \
+                and not R.rows_equal(rec["sqlite_rows"], rec["model_rows"], ordered=False):
+            return "same-named columns of both join sides are selected and the VALUES differ from the frame's (columns merged or swapped?)"
+        return None                # same columns: any other value difference is C01's clause
     if v == "sql-err":
         return "emitted SQL does not execute: %s" % str(rec.get("sqlite"))[:200]
     if v == "panic":
@@ -163,6 +234,10 @@ def run():
         if not fs:
             pg.final_cols = None
         inst = P.gen_instance(rng, max_rows=5, min_rows=2, extra=("zz",))
+        if rng.random() < 0.3:
+            # capitalised column names shared by both tables (names that SQL must quote and engines may case-fold)
+            pg.meta["rename"] = {"a": "Ax", "g": "Gx", "id": "Id"}
+            inst["__rename__"] = pg.meta["rename"]
         cases.append((pg, [inst]))
     recs = E.run_stream(ck, "columns", cases, targets, judge_cols, classify)
     ck.coverage["programs_without_final_select"] = len({r["prql"] for r in recs if not r["program"].meta.get("final_select", True)})
